@@ -46,12 +46,7 @@ def run(chk, program, tier):
                  ('ID-USE', 'each writer builds the identifier of the message it writes, afresh'), ('ID-PURE', 'the header functions depend on their arguments only')):
         chk.rule(r, t)
     id_pure(chk, program)
-    try:
-        _run(chk, program, tier)
-    except (B.Top, B.NeedBranch) as t:
-        chk.unknown('ID-PARSE', 'header functions', f"bit provenance gave up: {t}", DEC, 0)
-    except AnalysisError as e:
-        chk.unknown('ID-PARSE', 'header functions', str(e), DEC, 0)
+    header_roundtrip(chk, program, tier)
     # the Actisense header word: decided by composing writer and reader over symbolic source / destination / priority (C06's WF-ACT composition);
     # the structural reading (which bits of `n`) confirms where it recognises the spelling
     from . import c06
@@ -124,6 +119,80 @@ def id_pure(chk, program):
         chk.check(ok, 'ID-PURE', q, file=f, line=fn.lineno, func=q, expected='reads only its parameters and literal constants; writes nothing',
                   found={'names': bad, 'attributes': attrs, 'stores': [ast.unparse(x)[:40] for x in stores]} if not ok else 'pure',
                   detail='' if ok else 'state consulted by the header function (e.g. a cache) can make two different (PGN, source, destination, priority) tuples share one identifier')
+
+def header_roundtrip(chk, program, tier):
+    """ID-PARSE / ID-BUILD: by bit provenance on the extracted terms (_run); when the guard extractor or the provenance domain gives up on the
+    spelling (lists, loops, value classes of another module), by interpreting both header functions (absint) for every value of the PF byte"""
+    from .. import absint as A
+    try:
+        _run(chk, program, tier)
+        return
+    except (B.Top, B.NeedBranch) as t:
+        why = f"bit provenance gave up: {t}"
+    except AnalysisError as e:
+        why = str(e)
+    try:
+        n = _run_interpreted(chk, program)
+        chk.unit('header_functions_interpreted', n)
+    except (A.Unknown, A.RaiseSignal, AttributeError, TypeError, KeyError, IndexError) as u:
+        chk.unknown('ID-PARSE', 'header functions', f"{why} / not interpretable: {type(u).__name__}: {u}"[:300], DEC, 0)
+
+def _run_interpreted(chk, program):
+    """for each of the 256 values of the PF byte: build on (pgn with that PF, symbolic other bits; symbolic source, destination, priority), parse of the
+    result, and parse on an identifier with that PF byte followed by build -- compared bit for bit with the layout"""
+    from .. import absint as A
+    pf_ = program.fn('decoder', 'NMEA2000Decoder._extract_header')
+    bf_ = program.fn('encoder', 'NMEA2000Encoder._build_header')
+    def interp(mod, cls):
+        cdef = program.cls(mod, cls)
+        methods = {n.name: n for n in cdef.body if isinstance(n, ast.FunctionDef)}
+        funcs = {q: f for q, f in program.mod(mod).defs.items() if '.' not in q}
+        return A.Interp(methods=methods, functions=funcs, module=A.ModuleEnv(program.mod(mod).tree))
+    def call(it, fn, args):
+        params = [a.arg for a in fn.args.args]
+        if params and params[0] in ('self', 'cls'):
+            args = [A.AObj()] + list(args)
+        return it.call_function(fn, list(args))
+    def vec_of(x, what):
+        if isinstance(x, bool) or not isinstance(x, A.AInt):
+            raise A.Unknown(f"{what} is not an integer the interpreter followed: {x!r}"[:120])
+        v = x.vec()
+        if v is None:
+            raise A.Unknown(f"{what} has no bit vector")
+        return B.trim(v)
+    def bits(name, w, fixed=None):
+        return [(fixed or {}).get(i, (name, i)) for i in range(w)]
+    n_ob = 0
+    roles = ['pgn', 'source', 'dest', 'priority']
+    for pfv in range(256):
+        pdu1 = pfv < 0xF0
+        fixed = {8 + i: (pfv >> i) & 1 for i in range(8)}
+        pgn_bits = bits('P', 18, fixed)
+        args = [A.AInt(None, pgn_bits), A.AInt(None, bits('S', 8)), A.AInt(None, bits('D', 8)), A.AInt(None, bits('R', 3))]
+        idv = vec_of(call(interp('encoder', 'NMEA2000Encoder'), bf_, args), 'the identifier')
+        case = f"PF={pfv:#04x}"
+        chk.check(len(idv) <= 29, 'ID-BUILD', f"build::{case}::29-bits", file=ENC, line=bf_.lineno, func='_build_header', expected='identifier fits 29 bits', found=len(idv), nontrivial=False)
+        out = call(interp('decoder', 'NMEA2000Decoder'), pf_, [A.AInt(None, idv + [0] * (32 - len(idv)))])
+        if isinstance(out, A.AObj) and '__fields__' in out.attrs:
+            out = tuple(out.attrs[k] for k in out.attrs['__fields__'])
+        if not (isinstance(out, (tuple, list)) and len(out) == 4):
+            raise A.Unknown(f"_extract_header does not return four values: {out!r}"[:120])
+        exp = {'priority': bits('R', 3), 'source': bits('S', 8), 'pgn': ([0] * 8 + pgn_bits[8:]) if pdu1 else pgn_bits, 'dest': bits('D', 8) if pdu1 else [1] * 8}
+        for r, x in zip(roles, out):
+            got = vec_of(x, f"{r} of _extract_header")
+            n_ob += 1
+            chk.check(got == B.trim(exp[r]), 'ID-PARSE', f"parse∘build::{case}::{r}", file=DEC, line=pf_.lineno, func='_extract_header', expected=B.show_vec(B.trim(exp[r])), found=B.show_vec(got),
+                      detail=f"{'PDU1' if pdu1 else 'PDU2'} (PF {pfv:#04x}): identifier = {B.show_vec(idv)} (header functions interpreted)")
+        # build o parse
+        idbits = bits('id', 29, {16 + i: (pfv >> i) & 1 for i in range(8)})
+        vs = call(interp('decoder', 'NMEA2000Decoder'), pf_, [A.AInt(None, idbits + [0, 0, 0])])
+        if isinstance(vs, A.AObj) and '__fields__' in vs.attrs:
+            vs = tuple(vs.attrs[k] for k in vs.attrs['__fields__'])
+        rebuilt = vec_of(call(interp('encoder', 'NMEA2000Encoder'), bf_, list(vs)), 'the rebuilt identifier')
+        n_ob += 1
+        chk.check(rebuilt == B.trim(idbits), 'ID-BUILD', f"build∘parse::{case}::id[0:29]", file=ENC, line=bf_.lineno, func='_build_header', expected=B.show_vec(B.trim(idbits)), found=B.show_vec(rebuilt),
+                  detail='the identifier rebuilt from the parsed values, bit for bit; nothing above bit 28 (header functions interpreted)')
+    return n_ob
 
 def _run(chk, program, tier):
     """Both header functions are evaluated per value of the PDU-format byte (the 8 bits their PF test consults; whatever
